@@ -64,6 +64,34 @@ def gen(seed, tier):
     # sequence-id stealing by undeclared PGNs (D-02 region): a device with no application list
     ops = [msg(r, 0, p, 10, dst=255) for p in (130816, 130817, 130818, 130819)] + [msg(r, 0, 126996, 20, dst=255), msg(r, 0, 130820, 9, dst=255), msg(r, 0, 126996, 20, dst=255), msg(r, 0, 126996, 20, dst=255)]
     cases.append('NODE mode=1 ndev=1 src=22 q=40 t0=5000 | ' + ' ; '.join(ops))
+    # sequence ids across sends that are NOT fast-packet transmissions: refused during the device's claim window, carried by ISO-TP,
+    # refused for an unencodable destination - the next fast packet of the PGN carries the next id (seed C01-12)
+    for _ in range(8 if not thorough else 80):
+        ndev = r.choice([1, 2, 3])
+        txdev = r.randrange(ndev)
+        X, Y = r.sample([129029, 127489, 130577, 128275, 129540], 2)
+        cfg = 'NODE mode=%d ndev=%d src=%d q=40 t0=%d tx%d=%d,%d' % (r.choice([1, 2]), ndev, r.choice([22, 100]), r.choice([5000, 4294966000, 10 ** 12]), txdev, X, Y)
+        ops = [msg(r, txdev, X, 20, src=15, dst=255), msg(r, txdev, Y, 9, src=15, dst=255), msg(r, txdev, X, 7, src=15, dst=255)]
+        for _k in range(r.randint(2, 4)):
+            z = r.random()
+            if z < 0.4:
+                ops += ['C %d' % txdev, 'T %d' % r.choice([0, 10, 100, 200]), msg(r, txdev, X, r.choice([6, 20, 100]), src=15, dst=255), msg(r, txdev, Y, 9, src=15, dst=255), 'T 300']
+            elif z < 0.7:
+                ops += [msg(r, txdev, X, r.choice([9, 14, 20]), tp=1, src=15, dst=255)] + ['T 60', 'P'] * 6      # the BAM session (<= 3 packets) ends before the next one
+            else:
+                ops += [msg(r, ndev + 1, X, 20, src=15, dst=255), msg(r, txdev, 0, 20, src=15, dst=255)]
+            ops += [msg(r, txdev, X, r.choice([7, 20, 223]), src=15, dst=255), msg(r, txdev, Y, 13, src=15, dst=255), msg(r, txdev, X, 8, src=15, dst=255)]
+        ops += ['T 1300', 'P', 'P']
+        cases.append(cfg + ' | ' + ' ; '.join(ops))
+    # the application declares / replaces its PGN lists at run time (Set/Extend...Messages are plain setters): the classification of the
+    # NEXT message follows the lists as they are then, also for a PGN that was just sent under the old lists (seed C01-11)
+    for _ in range(6 if not thorough else 60):
+        p = r.choice([65300, 65301, 130900, 70000])
+        cfg = 'NODE mode=1 ndev=1 src=22 q=40 t0=5000'
+        ops = [msg(r, 0, p, 8, src=15, dst=255), msg(r, 0, p, 3, src=15, dst=255), 'L 3 %d,127250' % p, msg(r, 0, p, 8, src=15, dst=255), msg(r, 0, p, 3, src=15, dst=255),
+               'L 3 65535', msg(r, 0, p, 5, src=15, dst=255), 'L 2 %d' % p, msg(r, 0, p, 5, src=15, dst=255), msg(r, 0, 129029, 8, src=15, dst=255), 'L 2 129029', msg(r, 0, 129029, 8, src=15, dst=255),
+               'L 1 %d' % p, msg(r, 0, p, 4, src=15, dst=255), 'L 2 65534', msg(r, 0, p, 4, src=15, dst=255)]
+        cases.append(cfg + ' | ' + ' ; '.join(ops))
     # every length 0..223 once for a single-frame and a fast-packet PGN
     for pgn in (127250, 129029, 65300, 126720):
         ops = [msg(r, 0, pgn, n, pri=3, dst=255 if pgn != 126720 else 40) for n in range(0, 224)]
@@ -79,7 +107,16 @@ def oracle(case, res):
     ndev, src0, mode = cfg['ndev'], cfg['src'], cfg['mode']
     seq = {}        # (dev, pgn) -> number of fast-packet messages sent so far
     undeclared_used = set()
+    now = 0
+    claim_until = {}
     for k, (o, evs) in enumerate(zip(ops, per_op)):
+        if o and o[0] == 'T':
+            now += int(o[1])
+        elif o and o[0] == 'C' and mode in (1, 2) and 0 <= int(o[1]) < ndev:
+            claim_until[int(o[1])] = now + 250          # StartAddressClaim: the device is silent (except for claims) for 250 ms
+        elif o and o[0] == 'L' and len(o) >= 3:
+            cfg = dict(cfg)
+            cfg[('sf0', 'sf1', 'fp0', 'fp1')[int(o[1])]] = [int(x) for x in o[2].split(',') if x and x != '-']
         if not o or o[0] != 'S':
             continue
         idev, pri, pgn, msrc, mdst, tp = int(o[1]), int(o[2]), int(o[3]), int(o[4]), int(o[5]), o[6] == '1'
@@ -93,12 +130,24 @@ def oracle(case, res):
         esrc = own_addr(src0, idev) if 0 <= idev < ndev else msrc
         edst = mdst if pdu1(pgn) else 255
         must_refuse = (idev >= ndev or pgn == 0 or (pdu1(pgn) and (pgn & 0xff) != 0) or (esrc > 251 and pgn != 60928) or mode == 0)
+        cu = claim_until.get(dev)
+        if cu is not None and pgn != 60928 and not must_refuse:
+            if now < cu:
+                must_refuse = True                      # inside the claim window (C04); the instants cu, cu+1 differ between the scheduler builds
+            elif now <= cu + 1:
+                continue
         if must_refuse:
             if ok or txs:
                 return 'refusal:op %d (pgn %d src %d idev %d mode %d) should be refused but res=%s frames=%d' % (k, pgn, esrc, idev, mode, ok, len(txs))
             continue
         if not ok:
             return 'accept:op %d (pgn %d len %d) refused although encodable and entitled' % (k, pgn, len(data))
+        cls0 = ref_class(pgn, cfg) if pri < 128 else 'single'
+        if tp and not (len(data) <= 8 and cls0 == 'single'):
+            # ISO-TP carriage (C10): the only frame of this call is the TP.CM (BAM / RTS) from this source; no fast-packet sequence id is used
+            if len(txs) != 1 or ((txs[0][1] >> 8) & 0x1ff00) != 60416 or (txs[0][1] & 0xff) != esrc:
+                return 'tp:op %d flagged for ISO-TP but the call did not hand exactly one TP.CM from %d to the driver' % (k, esrc)
+            continue
         cid = ref_can_id(pri, pgn, esrc, edst)
         for e in txs:
             if e[1] != cid:
